@@ -28,7 +28,115 @@ class Obj(dict):
     """a record standing for an object of the analysed program: attribute name -> value (handed to the evaluator by a rule)"""
 
 
+class Inst(object):
+    """an object the evaluated code constructs itself from a class of the analysed package (a small helper class such as a range or a named record): the class (sa.model
+    ClassInfo) and the attribute values its methods have stored"""
+    def __init__(self, cls):
+        self.cls = cls
+        self.attrs = {}
+
+    def __repr__(self):
+        return '<%s %r>' % (getattr(self.cls, 'name', '?'), self.attrs)
+
+
+def _is_property(g):
+    return any((isinstance(d, ast.Name) and d.id == 'property') or (isinstance(d, ast.Attribute) and d.attr in ('getter',)) for d in g.decorator_list)
+
+
+def _call_method(inst, g, args, kwargs, env):
+    """run method g of the package class with self = inst (an Inst)"""
+    params = [a.arg for a in g.args.args]
+    is_static = any(isinstance(d, ast.Name) and d.id == 'staticmethod' for d in g.decorator_list)
+    genv = {k: v for k, v in env.items() if isinstance(k, str) and k.startswith('__') and k not in ('__mod__', '__funcs__', '__cls__')}
+    if not is_static and params:
+        genv[params[0]] = inst
+        params = params[1:]
+    if len(args) > len(params) or g.args.vararg or g.args.kwarg:
+        raise Unsupported('arity of %s' % g.name)
+    defaults = g.args.defaults
+    for i, p_ in enumerate(params):
+        if i < len(args):
+            genv[p_] = args[i]
+        elif p_ in kwargs:
+            genv[p_] = kwargs[p_]
+        else:
+            j = i - (len(params) - len(defaults))
+            if j < 0:
+                raise Unsupported('missing argument %s of %s' % (p_, g.name))
+            genv[p_] = ev(defaults[j], {})
+    genv['__cls__'] = inst.cls
+    rv, _out = run_function(g, genv)
+    return rv
+
+
+def _instantiate(cls, args, kwargs, env):
+    inst = Inst(cls)
+    r = cls.find_method('__init__')
+    if r is not None:
+        _call_method(inst, r[1], args, kwargs, env)
+    elif args or kwargs:
+        raise Unsupported('constructor arguments of %s' % getattr(cls, 'name', '?'))
+    return inst
+
+
+def _inst_attr(inst, attr, env):
+    if attr in inst.attrs:
+        return inst.attrs[attr]
+    r = inst.cls.find_method(attr)
+    if r is not None:
+        if _is_property(r[1]):
+            return _call_method(inst, r[1], [], {}, env)
+        return ('__bound__', inst, r[1])
+    a = inst.cls.find_attr(attr) if hasattr(inst.cls, 'find_attr') else None
+    if a is not None:
+        return ev(a[1], {'__mod__': getattr(inst.cls, 'mod', None)})
+    raise PyRaise('AttributeError')
+
+
 def ev(node, env):
+    if isinstance(node, ast.Attribute) and not (isinstance(node.value, ast.Name) and not isinstance(env.get(node.value.id), Inst) and ast.unparse(node) in env):
+        # attribute of an object the evaluated code built itself
+        base = None
+        if isinstance(node.value, ast.Name):
+            base = env.get(node.value.id)
+        elif isinstance(node.value, (ast.Attribute, ast.Call, ast.Subscript)):
+            try:
+                base = ev(node.value, env)
+            except Unsupported:
+                base = None
+        if isinstance(base, Inst):
+            return _inst_attr(base, node.attr, env)
+        if isinstance(node.value, ast.Name) and node.value.id == 'self' and base is None and env.get('__cls__') is not None and ast.unparse(node) not in env:
+            # a property of the object under evaluation (its attributes are given as 'self.<name>' bindings)
+            r_ = env['__cls__'].find_method(node.attr)
+            if r_ is not None and _is_property(r_[1]):
+                genv = {k: v for k, v in env.items() if isinstance(k, str) and (k.startswith('self.') or (k.startswith('__') and k not in ('__mod__', '__funcs__')))}
+                rv, _o = run_function(r_[1], genv)
+                return rv
+    if isinstance(node, ast.Call) and isinstance(node.func, ast.Attribute) and not (isinstance(node.func.value, ast.Name) and node.func.value.id == 'self'
+                                                                                    and not isinstance(env.get('self'), Inst)):
+        # a method of an object the evaluated code built itself
+        try:
+            basev = ev(node.func.value, env) if isinstance(node.func.value, (ast.Name, ast.Attribute, ast.Call, ast.Subscript)) else None
+        except Unsupported:
+            basev = None
+        if isinstance(basev, Inst):
+            r_ = basev.cls.find_method(node.func.attr)
+            if r_ is None:
+                raise PyRaise('AttributeError')
+            return _call_method(basev, r_[1], [ev(a, env) for a in node.args], {k.arg: ev(k.value, env) for k in node.keywords if k.arg}, env)
+    if isinstance(node, ast.Call) and isinstance(node.func, ast.Attribute) and isinstance(node.func.value, ast.Name) and node.func.value.id == 'self' and isinstance(env.get('self'), Inst):
+        inst_ = env['self']
+        r_ = inst_.cls.find_method(node.func.attr)
+        if r_ is not None:
+            return _call_method(inst_, r_[1], [ev(a, env) for a in node.args], {k.arg: ev(k.value, env) for k in node.keywords if k.arg}, env)
+    if isinstance(node, ast.Call) and isinstance(node.func, ast.Name) and node.func.id not in env and env.get('__mod__') is not None:
+        try:
+            rcls = env['__mod__'].resolve_name(node.func.id)
+        except Exception:
+            rcls = None
+        if rcls is not None and hasattr(rcls, 'find_method') and hasattr(rcls, 'mro') and not any(b_ for b_ in getattr(rcls, 'external_bases', []) or []):
+            return _instantiate(rcls, [ev(a, env) for a in node.args], {k.arg: ev(k.value, env) for k in node.keywords if k.arg}, env)
     if isinstance(node, (ast.Subscript, ast.Call)):
         # bindings may be given by source text:  'data[1]', 'len(self.additions)'
         k = ast.unparse(node)
@@ -499,6 +607,8 @@ def run_function(f, env, max_steps=10000, skip_calls=False, tolerant=False, skip
                 raise Unsupported('unpacking')
             for tt, vv in zip(t.elts, v):
                 bind(tt, vv)
+        elif isinstance(t, ast.Attribute) and isinstance(t.value, ast.Name) and isinstance(env.get(t.value.id), Inst):
+            env[t.value.id].attrs[t.attr] = v
         elif isinstance(t, ast.Attribute):
             env[ast.unparse(t)] = v
         else:
